@@ -138,3 +138,90 @@ def nontrivial(case, obs):
 
 
 shrink = c09.shrink
+
+
+# ----------------------------------------------------------------------------- met formats: Memmap vs Read
+from harness import camxfmt as M, metcheck as MC  # noqa
+
+_gen_u = gen
+
+
+def gen(rng, n, tier):  # noqa: F811
+    out = _gen_u(rng, n // 2, tier)
+    for i in range(n - len(out)):
+        c = M.gen_met(rng, tier=tier, rollover=0.3)
+        out.append(dict(kind='met-' + c['fmt'], content=c, write=False, read=True))
+    return out
+
+
+_impl_u = impl
+
+
+def impl(case):  # noqa: F811
+    if case['kind'].startswith('met-'):
+        return MC.run_met(case)
+    return _impl_u(case)
+
+
+_coq_u = coq_term
+
+
+def coq_term(case, obs):  # noqa: F811
+    if case['kind'].startswith('met-'):
+        return None
+    return _coq_u(case, obs)
+
+
+def year_crossing(c):
+    ds = [s['date'] for s in c['steps']]
+    return any(b // 1000 != a // 1000 for a, b in zip(ds, ds[1:]))
+
+
+_py_u = py_check
+
+
+def py_check(case, obs):  # noqa: F811
+    if not case['kind'].startswith('met-'):
+        return _py_u(case, obs)
+    if 'raises' in obs:
+        return dict(s_ok=False, why='harness/impl raised ' + str(obs))
+    c = case['content']
+    mm, rd = obs['mm'], obs['rd']
+    why = []
+    if mm['status'] == 'timeout':
+        why.append('Memmap reader did not terminate')
+    if rd['status'] == 'timeout':
+        why.append('record reader did not terminate')
+    if mm['status'] == 'ok' and rd['status'] == 'ok':
+        a, b = mm['view'], rd['view']
+        for dname in ('TSTEP', 'LAY', 'ROW', 'COL'):
+            if dname in a['dims'] and dname in b['dims'] and a['dims'][dname] != b['dims'][dname]:
+                why.append('dimension %s: Memmap %s, Read %s' % (dname, a['dims'][dname], b['dims'][dname]))
+        for v in a['data']:
+            if v in b['data'] and MC.squeeze(a['data'][v]) != MC.squeeze(b['data'][v]):
+                why.append('data of %s differ between the readers' % v)
+        if 'TFLAG' in a and 'TFLAG' in b and a['TFLAG'] != b['TFLAG']:
+            why.append('TFLAG differs: %s vs %s' % (a['TFLAG'][:2], b['TFLAG'][:2]))
+    region = MC.region_of(c)
+    if region == 0 and year_crossing(c):
+        region = 13
+    return dict(s_ok=not why, region=region, why='; '.join(why[:3]))
+
+
+_nt_u = nontrivial
+
+
+def nontrivial(case, obs):  # noqa: F811
+    if case['kind'].startswith('met-'):
+        return obs.get('mm', {}).get('status') == 'ok' and obs.get('rd', {}).get('status') == 'ok'
+    return _nt_u(case, obs)
+
+
+def shrink(case):  # noqa: F811
+    if case['kind'].startswith('met-'):
+        c = case['content']
+        if len(c['steps']) > 2:
+            yield dict(case, content=dict(c, steps=c['steps'][:-1]))
+        return
+    for x in c09.shrink(case):
+        yield x
